@@ -60,9 +60,10 @@ impl Visitor<StatementPos> for InstructionGenerator {
                 self.push(Instruction::Label(name), pos);
             }
             Statement::GoTo(name) => {
-                // leaving the body of a FOR loop: drop the register frame of that body
-                for _ in 0..self.for_bodies_left_by_goto(&name) {
-                    self.push(Instruction::PopRegisters, pos);
+                // leaving the body of a FOR loop: drop the register frame of that body;
+                // leaving a SELECT CASE block: drop the value of its expression
+                for enclosing in self.constructs_left_by_goto(&name) {
+                    self.push(enclosing.leave_instruction(), pos);
                 }
                 self.push(Instruction::Jump(AddressOrLabel::Unresolved(name)), pos);
             }
@@ -91,8 +92,11 @@ impl Visitor<StatementPos> for InstructionGenerator {
             }
             Statement::Exit(_) => {
                 // leaving the bodies of all enclosing FOR loops: drop their register frames
-                for _ in 0..self.for_path.len() {
-                    self.push(Instruction::PopRegisters, pos);
+                // (and the values of all enclosing SELECT CASE expressions)
+                let enclosing_constructs: Vec<_> =
+                    self.for_path.iter().rev().map(|(_, e)| *e).collect();
+                for enclosing in enclosing_constructs {
+                    self.push(enclosing.leave_instruction(), pos);
                 }
                 self.push(Instruction::PopRet, pos);
             }
